@@ -7,6 +7,10 @@ EXTENDS Integers, Sequences, FiniteSets
 Recursive   == {"Madgwick", "Mahony", "EKF", "UKF", "AQUA", "ROLEQ", "FKF", "Complementary", "Fourati", "AngularRate"}
 SingleFrame == {"Tilt", "TRIAD", "Davenport", "QUEST", "FLAE", "OLEQ", "SAAM", "FAMC", "FQA", "AQUA"}
 Filters     == Recursive \cup SingleFrame
+(* recursive classes that offer no one-sample update method: an instance exists only through its Batch action (the lifecycle machine's *)
+(* Create / Update actions are not enabled for them; determinism, isolation and repeatability are decided on Batch behaviours alone)   *)
+BatchOnly   == {"Complementary", "FKF"}
+Streaming   == Recursive \ BatchOnly
 
 (* sensor architectures a class can be built with *)
 Archs(f) == CASE f \in {"Madgwick", "Mahony", "EKF", "Complementary"} -> {"IMU", "MARG"}
